@@ -269,7 +269,7 @@ func pickKeys(r *rand.Rand, shards, n int, class string) []string {
 	return out
 }
 
-var families = []string{"string", "counter", "list", "set", "hash", "zset"}
+var families = []string{"string", "counter", "list", "set", "hash", "zset", "string+", "counter+", "list+", "set+", "hash+", "zset+", "stream"}
 
 // genOp returns one single-key command of the key's family with unique written values.
 func genOp(r *rand.Rand, fam, key, uniq string) [][]byte {
@@ -366,13 +366,184 @@ func genOp(r *rand.Rand, fam, key, uniq string) [][]byte {
 			return c("ZRANK", key, m)
 		}
 		return c("ZADD", key, "INCR", "1", m)
+	case "string+":
+		// the wider string surface: range writes/reads, conditional SETs, the array-replying MGET, TYPE and the
+		// deadline commands with far-away deadlines (their replies do not depend on the clock)
+		switch r.Intn(14) {
+		case 0:
+			return c("SETRANGE", key, strconv.Itoa(r.Intn(7)), uniq)
+		case 1:
+			return c("GETRANGE", key, strconv.Itoa(r.Intn(5)-2), strconv.Itoa(r.Intn(9)-3))
+		case 2:
+			return c("SET", key, uniq, "NX")
+		case 3:
+			return c("SET", key, uniq, "XX")
+		case 4:
+			return c("SET", key, uniq, "GET")
+		case 5:
+			return c("MGET", key)
+		case 6:
+			return c("TYPE", key)
+		case 7:
+			return c("EXPIRE", key, "1000000", []string{"NX", "XX", "GT", "LT"}[r.Intn(4)])
+		case 8:
+			return c("PERSIST", key)
+		case 9:
+			return c("SETEX", key, "1000000", uniq)
+		case 10:
+			return c("SET", key, uniq, "KEEPTTL")
+		case 11:
+			return c("APPEND", key, uniq)
+		case 12:
+			return c("DEL", key)
+		}
+		return c("GET", key)
+	case "counter+":
+		switch r.Intn(8) {
+		case 0, 1:
+			return c("INCRBYFLOAT", key, []string{"0.5", "1.25", "-0.75", "2"}[r.Intn(4)])
+		case 2:
+			return c("DECRBY", key, strconv.Itoa(1+r.Intn(5)))
+		case 3:
+			return c("INCRBY", key, strconv.Itoa(r.Intn(9)-4))
+		case 4:
+			return c("SETNX", key, strconv.Itoa(r.Intn(100)))
+		case 5:
+			return c("GET", key)
+		case 6:
+			return c("STRLEN", key)
+		}
+		return c("DEL", key)
+	case "list+":
+		switch r.Intn(14) {
+		case 0:
+			return c("LPUSH", key, uniq, uniq+"b")
+		case 1:
+			return c("RPUSH", key, uniq, "dup")
+		case 2:
+			return c("LPUSHX", key, uniq)
+		case 3:
+			return c("RPUSHX", key, uniq)
+		case 4:
+			return c("LPOP", key, strconv.Itoa(r.Intn(3)))
+		case 5:
+			return c("RPOP", key, strconv.Itoa(1+r.Intn(2)))
+		case 6:
+			return c("LSET", key, strconv.Itoa(r.Intn(5)-2), uniq)
+		case 7:
+			return c("LREM", key, strconv.Itoa(r.Intn(3)-1), "dup")
+		case 8:
+			return c("LTRIM", key, strconv.Itoa(r.Intn(3)-1), strconv.Itoa(r.Intn(6)-2))
+		case 9:
+			return c("LPOS", key, "dup")
+		case 10:
+			return c("LRANGE", key, strconv.Itoa(r.Intn(5)-2), strconv.Itoa(r.Intn(7)-3))
+		case 11:
+			return c("LMOVE", key, key, []string{"LEFT", "RIGHT"}[r.Intn(2)], []string{"LEFT", "RIGHT"}[r.Intn(2)])
+		case 12:
+			return c("LLEN", key)
+		}
+		return c("LINDEX", key, strconv.Itoa(r.Intn(5)-2))
+	case "set+":
+		m := "m" + strconv.Itoa(r.Intn(5))
+		switch r.Intn(10) {
+		case 0:
+			return c("SADD", key, m, "m"+strconv.Itoa(r.Intn(5)), uniq)
+		case 1:
+			return c("SREM", key, m, "m"+strconv.Itoa(r.Intn(5)))
+		case 2:
+			return c("SPOP", key, strconv.Itoa(r.Intn(3)))
+		case 3:
+			return c("SRANDMEMBER", key)
+		case 4:
+			return c("SRANDMEMBER", key, strconv.Itoa(r.Intn(7)-3))
+		case 5:
+			return c("SMOVE", key, key, m)
+		case 6:
+			return c("SUNION", key)
+		case 7:
+			return c("SINTER", key, key)
+		case 8:
+			return c("SDIFF", key)
+		}
+		return c("SCARD", key)
+	case "hash+":
+		f := "f" + strconv.Itoa(r.Intn(3))
+		switch r.Intn(12) {
+		case 0:
+			return c("HSET", key, f, uniq, "f"+strconv.Itoa(r.Intn(3)), uniq+"b")
+		case 1:
+			return c("HMGET", key, "f0", "f1", "f2", "n")
+		case 2:
+			return c("HKEYS", key)
+		case 3:
+			return c("HVALS", key)
+		case 4:
+			return c("HEXISTS", key, f)
+		case 5:
+			return c("HSTRLEN", key, f)
+		case 6:
+			return c("HINCRBYFLOAT", key, "x", []string{"0.5", "1.25", "-0.75"}[r.Intn(3)])
+		case 7:
+			return c("HRANDFIELD", key)
+		case 8:
+			return c("HRANDFIELD", key, strconv.Itoa(r.Intn(7)-3), "WITHVALUES")
+		case 9:
+			return c("HDEL", key, "f0", "f1", "f2", "n", "x")
+		case 10:
+			return c("HSET", key, f, "")
+		}
+		return c("HINCRBY", key, "n", strconv.Itoa(r.Intn(7)-3))
+	case "zset+":
+		m := "m" + strconv.Itoa(r.Intn(5))
+		sc := []string{"0", "1", "1", "2", "-1.5", "2.25", "inf", "-inf"}[r.Intn(8)]
+		switch r.Intn(11) {
+		case 0:
+			return c("ZADD", key, []string{"NX", "XX", "GT", "LT"}[r.Intn(4)], sc, m)
+		case 1:
+			return c("ZADD", key, "CH", sc, m, "1", "m"+strconv.Itoa(r.Intn(5)))
+		case 2:
+			return c("ZADD", key, []string{"GT", "LT"}[r.Intn(2)], "CH", sc, m)
+		case 3:
+			return c("ZADD", key, "XX", "INCR", []string{"1", "-1", "0.5"}[r.Intn(3)], m)
+		case 4:
+			return c("ZREM", key, m, "m"+strconv.Itoa(r.Intn(5)))
+		case 5:
+			return c("ZRANGE", key, strconv.Itoa(r.Intn(5)-2), strconv.Itoa(r.Intn(7)-3), "REV", "WITHSCORES")
+		case 6:
+			return c("ZRANGE", key, "0", "-1")
+		case 7:
+			return c("ZRANK", key, m)
+		case 8:
+			return c("ZADD", key, sc, m, sc, "m"+strconv.Itoa(r.Intn(5)))
+		case 9:
+			return c("TYPE", key)
+		}
+		return c("ZRANGE", key, "0", "-1", "WITHSCORES")
+	case "stream":
+		// explicit and ms-* ids only (an id chosen from the clock is judged in C18, not by a sequential model)
+		ms := strconv.Itoa(1 + r.Intn(6))
+		switch r.Intn(8) {
+		case 0, 1:
+			return c("XADD", key, ms+"-"+strconv.Itoa(r.Intn(4)), "f", uniq)
+		case 2, 3:
+			return c("XADD", key, ms+"-*", "f", uniq)
+		case 4:
+			return c("XADD", key, "NOMKSTREAM", ms+"-*", "f", uniq)
+		case 5:
+			return c("XADD", key, "MAXLEN", strconv.Itoa(1+r.Intn(3)), ms+"-*", "f", uniq)
+		case 6:
+			return c("XRANGE", key, "-", "+")
+		}
+		return c("XRANGE", key, strconv.Itoa(r.Intn(4)), strconv.Itoa(2+r.Intn(5)))
 	}
 	return c("GET", key)
 }
 
 func isRMW(name string) bool {
 	switch name {
-	case "GET", "STRLEN", "EXISTS", "LLEN", "LRANGE", "LINDEX", "SISMEMBER", "SCARD", "SMEMBERS", "HGET", "HLEN", "HGETALL", "ZRANGE", "ZRANK":
+	case "GET", "STRLEN", "EXISTS", "LLEN", "LRANGE", "LINDEX", "SISMEMBER", "SCARD", "SMEMBERS", "HGET", "HLEN", "HGETALL", "ZRANGE", "ZRANK",
+		"GETRANGE", "MGET", "TYPE", "LPOS", "SRANDMEMBER", "SUNION", "SINTER", "SDIFF", "HMGET", "HKEYS", "HVALS", "HEXISTS", "HSTRLEN", "HRANDFIELD", "XRANGE":
 		return false
 	}
 	return true
@@ -413,6 +584,22 @@ func pModel(partition bool) porcupine.Model {
 		}
 	}
 	return m
+}
+
+// shortestIllegalPrefix is a display aid: the shortest prefix (by call time) of an illegal history that is itself illegal.
+func shortestIllegalPrefix(part []porcupine.Operation) []porcupine.Operation {
+	ops := append([]porcupine.Operation{}, part...)
+	sort.Slice(ops, func(i, j int) bool { return ops[i].Call < ops[j].Call })
+	lo, hi := 1, len(ops)
+	for lo < hi {
+		mid := (lo + hi) / 2
+		if porcupine.CheckOperations(pModel(false), append([]porcupine.Operation{}, ops[:mid]...)) {
+			lo = mid + 1
+		} else {
+			hi = mid
+		}
+	}
+	return ops[:lo]
 }
 
 func historyText(ops []porcupine.Operation) [][]string {
@@ -635,8 +822,9 @@ func (rn *runner) historyC05(r *rand.Rand, shards int) {
 				ns = append(ns, n)
 			}
 			sort.Strings(ns)
-			rn.report(witness{Kind: "not-linearizable", Detail: fmt.Sprintf("key %q (%d ops, %d clients, ShardNum %d, class %s): no sequential order respecting real time explains the replies", k, len(part), nClients, shards, class),
-				History: historyText(part), Sig: "not-linearizable|" + strings.Join(ns, ",")})
+			short := shortestIllegalPrefix(part)
+			rn.report(witness{Kind: "not-linearizable", Detail: fmt.Sprintf("key %q (%d ops, %d clients, ShardNum %d, class %s): no sequential order respecting real time explains the replies; shortest illegal prefix by call time has %d ops, its last one is the first reply that cannot be explained", k, len(part), nClients, shards, class, len(short)),
+				History: historyText(short), Sig: "not-linearizable|" + strings.Join(ns, ",")})
 			break
 		}
 	}
